@@ -119,7 +119,12 @@ def interpolate_unit(h):
     mk = h.choice(3)
     mass = [h.real('mass'), 'min', 'max'][mk]
     state = h.new('AEIC.performance.types:AircraftState', altitude=alt, aircraft_mass=mass, true_airspeed=None, rate_of_climb=None)
+    state0 = dict(state.attrs)
     r = h.method(table, 'interpolate', state, ph)
+    # "values depend only on altitude, mass and phase": the state that was asked about is the caller's, not the table's to edit
+    # (a symbolic 'min' / 'max' must still say so for the next model it is shown to)
+    h.ensure('the-callers-state-is-left-as-it-was', set(state.attrs) == set(state0) and all(state.attrs[a] is state0[a] for a in state0),
+             note='changed: ' + ', '.join(f'{a}: {state0.get(a)!r} -> {state.attrs.get(a)!r}' for a in state.attrs if state.attrs.get(a) is not state0.get(a)))
     used = stub_old if cached else (built[0] if built else None)
     if used is None or len(used.calls) != 1 or r[0] != 'performance-of':
         h.fail('asks-the-phases-interpolator-once', repr(r))
